@@ -33,6 +33,9 @@ def instances(tier, rng):
     cycs = shapes(cyc) + C.spread(shapes(cyc4), 150 if quick else 1236)
     if not quick:
         dags = dags + C.spread(shapes(vlib.universe("dag", 5, k=3, w=2, cap=6)), 400)
+    mdag, mcyc = C.motifs()
+    dags = dags + shapes(mdag)
+    cycs = cycs + shapes(mcyc)
     insts, kcov, subs = [], [], []
     for kind, us in (("dag", dags), ("cyc", cycs)):
         mincls = "MinPathCover" if kind == "dag" else "MinPathCoverCycles"
